@@ -1,32 +1,32 @@
 #!/bin/bash
 # re-introduce each repaired defect (git revert -n of its fix commit) in the scratch copy and run the checks that should notice
 cd /verif && notes/sens.sh sync >/dev/null 2>&1
-run() { notes/sens.sh run "revert:$1" "${@:2}"; }
-run 61246ca C01 C08 C11
-run 09f27bc C01 C08 C12
-run 1505bfc C05
-run 54a5e36 C05 C13
-run 8bb1c85 C07
-run 85b6504 C06
-run 1d46801 C01 C12 C20
-run 76bccec C20 C01
-run 786387f C19 C16 C01
-run c72ffdf C01 C16
-run b990f38 C05
-run 3a9c6e3 C14
-run 44afbd3 C05
-run f5f04e7 C03
-run 4065433 C19 C01
-run d857181 C11
-run d9236bd C19 C01
-run 597712c C03 C02
-run acd1075 C01 C08 C12
-run eb86418 C03
-run c60f81b C03
-run e3ef430 C03
-run 2697a7d C03
-run c5b2116 C01 C12
-run 3ccfb67 C01 C08
-run 00e0c88 C06 C01
-run 5607525 C05
-run 7f797e0 C06 C05
+run() { h=$(git -C /repo log --format="%h %s" | grep -F -- "fix: $1" | head -1 | cut -d" " -f1); if [ -z "$h" ]; then h=$(git -C /repo log --format="%h %s" | grep -E -- "fix: $1" | head -1 | cut -d" " -f1); fi; notes/sens.sh run "revert:$h" "${@:2}"; }
+run "case-blind first-character set of a lite" C01 C08 C11
+run "a repeat followed by . or . was always t" C01 C08 C12
+run "analyze panicked on a zero-length group " C05
+run "analyze panicked with flag q when the li" C05 C13
+run "a reluctant quantifier on an anchor was " C07
+run "reluctant quantifier over a zero-width t" C06
+run "a greedy quantifier with minimum >= 1 on" C01 C12 C20
+run ".n,m. on a term that can match the empty" C20 C01
+run "a back-reference to a group that did not" C19 C16 C01
+run "iteration bound of a repeat ignored the " C01 C16
+run "a precondition at a fixed position beyon" C05
+run "flag x also removed form feed from the p" C14
+run "match-length arithmetic overflowed for v" C05
+run "groups inside a greedy fixed-length loop" C03
+run "a failed attempt at a group overwrote th" C19 C01
+run "with flag i the last character before '-" C11
+run "the zero-iterations memo of a repeat ign" C19 C01
+run "the .a... to .a... rewrite was also appl" C03 C02
+run "in multi-line mode a . inside the patter" C01 C08 C12
+run "a group abandoned by backtracking still " C03
+run "a reluctant fixed-length loop wiped the " C03
+run "simplifications for a quantified nullabl" C03
+run "groups kept the capture of an abandoned " C03
+run "a greedy repeat with minimum 0 lost one " C01 C12
+run "a repeat followed by a term that can mat" C01 C08
+run "reluctant repeat of a variable-length te" C06 C01
+run "a fixed-length loop over a term of lengt" C05
+run "a greedy repeat with a huge minimum iter" C06 C05
